@@ -128,7 +128,7 @@ func (g *gen) commentValue() string {
 }
 
 func (g *gen) pi(parent *Node) *Node {
-	return &Node{Kind: PI, Local: g.pick("piTarget", []string{"t", "u", "style"}), Value: g.pick("piVal", []string{"", "d", "x=1", "2", "d\ne"}), Parent: parent}
+	return &Node{Kind: PI, Local: g.pick("piTarget", []string{"t", "u", "style", "xml-stylesheet", "xmlfoo", "x.y"}), Value: g.pick("piVal", []string{"", "d", "x=1", "2", "d\ne"}), Parent: parent}
 }
 
 func lookup(scope []binding, prefix string) (string, bool) {
